@@ -14,7 +14,7 @@ warnings.filterwarnings("ignore")
 import z3
 from engine import common, cmh, logh, logm
 from engine.kit import KeyBook, cm_est, zx, ev, MAX32, umin
-from engine.nbsym import Executor, State, types
+from engine.nbsym import Executor, State, Val, types, mk_int
 
 PID = "C09"
 
@@ -105,7 +105,79 @@ def replay_linear_merge(cex):
     return {"reproduced": bool(fails), "how": "tables installed through public cms[:] / n_added_records[:]; CountMinLinear.merge / query", "failed_clauses": fails[:5]}
 
 
+BIG_CELLS = 8200          # two tables of 8200 cells: block / chunk boundaries at 1024, 2048, 4096, 8192 lie inside
+BIG_SYM = sorted(set(i + d for i in (0, 1024, 2048, 4096, 8192) for d in (-1, 0, 1) if 0 <= i + d < 8200) | {8199})
+
+
+def ob_merge_big(kind, timeout_ms):
+    """every cell is merged exactly once also in a LARGE table: a 1 x 8200 table in which all cells are concrete zeros
+    except 17 symbolic ones next to the indices where a chunked or blocked loop would switch chunk (multiples of 1024)
+    and at both ends; symbolic counters are kept small (sum within the exact range), so the specification is a + b"""
+    stats = common.Stats()
+    C = cmh.cm()
+    bits = {"linear": 32, "log16": 16, "log8": 8}[kind]
+    ex = Executor(loop_bound=BIG_CELLS + 8)
+    st = State()
+    a = cmh.SymCM(st, "a", bits, BIG_CELLS, 1, zero=True)
+    b = cmh.SymCM(st, "b", bits, BIG_CELLS, 1, zero=True)
+    A, B = list(st.heap[a.cms.sid]), list(st.heap[b.cms.sid])
+    sa, sb = {}, {}
+    for i in BIG_SYM:
+        sa[i], sb[i] = z3.BitVec(f"a_{i}", bits), z3.BitVec(f"b_{i}", bits)
+        A[i], B[i] = sa[i], sb[i]
+        st.pc += [z3.ULE(sa[i], 3), z3.ULE(sb[i], 3)]
+    st.heap[a.cms.sid], st.heap[b.cms.sid] = tuple(A), tuple(B)
+    pre = dict(st.heap)
+    U = cmh.U[bits]
+    W, D = mk_int(types.uint64, BIG_CELLS), mk_int(types.uint64, 1)
+    if bits == 32:
+        post = cmh.run1(ex, C._merge_linear, st, [a.cms, b.cms, W, D, mk_int(types.uint32, MAX32), a.nar, b.nar])[0]
+    else:
+        cfg = logh.CONFIGS[bits][0]
+        disp = C._merge_log16 if bits == 16 else C._merge_log8
+        post = cmh.run1(ex, disp, st, [a.cms, b.cms, W, D, mk_int(types.uint64, cfg[0]), mk_int(U, logh.UMAX[bits]), mk_int(U, cfg[1]), Val(types.float64, z3.FPVal(logh.real_base(bits, cfg), logh.FPS)), a.nar, b.nar])[0]
+    R, B2 = post.heap[a.cms.sid], post.heap[b.cms.sid]
+    funcs = sorted(ex.funcs_encoded)
+    bad = z3.Or(*[R[i] != (A[i] + B[i]) for i in range(BIG_CELLS) if not (z3.is_bv_value(R[i]) and z3.is_bv_value(A[i]) and z3.is_bv_value(B[i]) and R[i].as_long() == A[i].as_long() + B[i].as_long())] +
+                [B2[i] != B[i] for i in BIG_SYM] + [z3.BoolVal(False)])
+    r, m = common.z3check(list(post.pc) + [bad], timeout_ms, stats, label=f"_merge_{kind} on a 1x{BIG_CELLS} table: every cell == a + b (small counters), argument untouched")
+    if r == "unsat":
+        return {"status": "proved", "stats": stats.as_dict(), "funcs": funcs}
+    if r != "sat":
+        return {"status": "unknown", "stats": stats.as_dict(), "funcs": funcs, "note": r}
+    cex = {"kind": "merge-big", "counter": kind, "cells": BIG_CELLS, "a": {str(i): ev(m, sa[i]) for i in BIG_SYM}, "b": {str(i): ev(m, sb[i]) for i in BIG_SYM}}
+    return {"status": "cex", "stats": stats.as_dict(), "funcs": funcs, "cex": cex, "replay": replay(cex), "finding_key": "merge-big:" + kind}
+
+
+def replay_merge_big(cex):
+    import numpy as np
+    C = cmh.cm()
+    n = cex["cells"]
+    cls = {"linear": C.CountMinLinear, "log16": C.CountMinLog16, "log8": C.CountMinLog8}[cex["counter"]]
+    fails = []
+    for shape in ((n, 1), (n // 8, 8)):
+        x, y = cls(*shape), cls(*shape)
+        fa, fb = np.zeros(shape[0] * shape[1], x.cms.dtype), np.zeros(shape[0] * shape[1], x.cms.dtype)
+        for i, v in cex["a"].items():
+            if int(i) < fa.size:
+                fa[int(i)] = v
+        for i, v in cex["b"].items():
+            if int(i) < fb.size:
+                fb[int(i)] = max(v, 1)
+        x.cms[:] = fa.reshape(shape[1], shape[0])
+        y.cms[:] = fb.reshape(shape[1], shape[0])
+        x.merge(y)
+        got = np.array(x.cms).reshape(-1).astype(np.int64)
+        want = fa.astype(np.int64) + fb.astype(np.int64)
+        d = np.nonzero(got != want)[0]
+        if d.size:
+            fails.append(f"{cls.__name__}(width={shape[0]}, depth={shape[1]}): {d.size} cell(s) differ from a + b, e.g. flat index {int(d[0])}: {int(fa[d[0]])} merged with {int(fb[d[0]])} gives {int(got[d[0]])}")
+    return {"reproduced": bool(fails), "how": "real sketches with the model's small counters installed through cms[:] at the same flat indices (and 1 where the model had 0 in the argument); merge; compared cell by cell with a + b", "failed_clauses": fails[:3]}
+
+
 def replay(cex):
+    if cex.get("kind") == "merge-big":
+        return replay_merge_big(cex)
     if cex.get("kind") == "w":
         from engine import wrun
         return wrun.replay_generic(cex)
@@ -121,6 +193,9 @@ def main():
     tmo = 600000 if tier == "quick" else 1200000
     shapes = [(1, 1), (2, 2), (3, 2), (3, 3)] if tier == "quick" else [(w, d) for w in (1, 2, 3, 4) for d in (1, 2, 3, 4)] + [(8, 8)]
     obs = [common.Ob(f"linear merge == saturating cell-wise sum, {d}x{w}", ob_linear_merge, (w, d, tmo), hard_s=tmo / 1000 * 8 + 120, bounds={"width": w, "depth": d, "tables": "arbitrary"}) for (w, d) in shapes]
+    for kind in ("linear", "log16", "log8"):
+        obs.append(common.Ob(f"{kind} merge on a large table (1x{BIG_CELLS}): every cell merged exactly once", ob_merge_big, (kind, tmo), hard_s=tmo / 1000 + 900,
+                             bounds={"cells": BIG_CELLS, "symbolic cells": BIG_SYM, "symbolic counters": "0..3 each (sum in the exact range)", "other cells": "concrete zeros"}))
     lobs, lbounds, lstubs, loutside = logm.c09_obligations(tier)
     obs += lobs
     from engine import wrun
@@ -135,7 +210,7 @@ def main():
         bounds={"linear_shapes(width,depth)": shapes, "linear_cells": "all 2^32 x 2^32 counter pairs per cell (symbolic)", "log": lbounds},
         stubs=["fasthash64 -> uninterpreted columns (only for the estimate corollary)"] + lstubs,
         assumptions=["Numba lowering preserves typed-IR semantics", "prange == range for row-disjoint writes", "merge() refuses mismatched parameters before calling the kernel (C15)"],
-        outside=["shapes beyond the listed ones (the kernels treat cells uniformly)"] + loutside,
+        outside=["shapes beyond the listed ones (the kernels treat cells uniformly; one large sparse table of 8200 cells checks chunk boundaries at multiples of 1024)"] + loutside,
         explanation="cell-wise specification of the real merge kernels decided by z3 over all counter pairs; counterexamples replayed through the public API with tables installed",
         technique="symbolic execution of Numba typed IR + z3 (QF_BV for linear; QF_FPBV with uninterpreted pow/log and NRA real-idealised lemmas for log)")
 
